@@ -46,7 +46,7 @@ pub fn check_text(text: &str, via_cli: bool) -> Result<Info, Violation> {
     let parsed = rparse::parse_text(text.as_bytes())
         .map_err(|e| v(format!("HARNESS: reference parser rejects the generated text: {}", e)))?;
     let names = rlex::identifiers(&parsed.tokens);
-    if names.len() > 12 {
+    if names.len() > 16 {
         return Err(v("HARNESS: too many names for a truth-table oracle".into()));
     }
     let out = match rsem::table_with(&parsed.ast, &names, &[]) {
@@ -273,6 +273,49 @@ pub fn run(ctx: &mut Ctx) -> Result<(), Violation> {
         }
     }
     ctx.stage("golden-readme-and-repo-files", true, (st, None))?;
+
+    // the repository's own formula files (<= 16 names; fixed points there are convergent although
+    // not syntactically monotone - the reference Kleene iteration decides convergence)
+    let mut files: Vec<(String, String)> = Vec::new();
+    for dir in ["/repo/examples", "/repo/tests/data", "/repo"] {
+        if let Ok(rd) = std::fs::read_dir(dir) {
+            let mut paths: Vec<_> = rd.filter_map(|e| e.ok().map(|e| e.path())).collect();
+            paths.sort();
+            for p in paths {
+                if p.extension().map(|e| e == "txt").unwrap_or(false) {
+                    if let Ok(text) = std::fs::read_to_string(&p) {
+                        files.push((p.to_string_lossy().into_owned(), text));
+                    }
+                }
+            }
+        }
+    }
+    let r = par_jobs(ctx, &files, |(path, text), st| {
+        let parsed = match rparse::parse_text(text.as_bytes()) {
+            Ok(p) => p,
+            Err(_) => {
+                st.discarded += 1;
+                return Ok(());
+            }
+        };
+        let names = rlex::identifiers(&parsed.tokens);
+        if names.len() > 16 || parsed.ast.has_ref() {
+            st.discarded += 1;
+            st.class("repository-file-skipped(too many names)");
+            return Ok(());
+        }
+        if rsem::table(&parsed.ast, &names).is_err() {
+            st.discarded += 1;
+            return Ok(());
+        }
+        st.eval();
+        st.class("repository-file");
+        let info = check_text(text, false)?;
+        st.nontrivial(fnv_str(text));
+        st.nt_sample(|| json!({"file": path, "names": names.len(), "valid": info.oracle.is_true()}));
+        Ok(())
+    });
+    ctx.stage("repository-formula-files", true, r)?;
 
     let cases = ctx.tier.pick(150_000, 3_000_000);
     let (nn, dd) = (ctx.tier.pick(6, 8), ctx.tier.pick(5, 7));
